@@ -34,9 +34,23 @@ def pi_hex_words(nwords):
 
 
 def generate(gendir, seed, tier, src):
+    import random
+    rnd = random.Random(seed)
+    fixed_pad = {0, 1, 55, 56, 57, 63, 64, 65, 119, 120, 128, 183, 184}
+    pad_len = rnd.choice([n for n in range(2, 190) if n not in fixed_pad])
+    block_len = rnd.choice([n for n in range(2, 250) if n not in (111, 112, 113, 128, 240)])
+    img_w, img_h = rnd.randint(1, 9), rnd.randint(1, 9)
+    cell_off = rnd.randint(0, 8)
     with open(os.path.join(gendir, "params.rs"), "w") as f:
-        f.write("// generated: seed-dependent shape parameters\n")
+        f.write("// generated: seed-dependent shape parameters (VERIF_SEED picks the extra concrete shapes)\n")
         f.write("pub const VERIF_SEED: u64 = %d;\n" % seed)
+        f.write("pub const SHA1_PAD_LEN: usize = %d;\n" % pad_len)
+        f.write("pub const PATCH_BLOCK_LEN: usize = %d;\n" % block_len)
+        f.write("pub const IMG_W: usize = %d;\npub const IMG_H: usize = %d;\n" % (img_w, img_h))
+        f.write("pub const CELL_OFF: usize = %d;\n" % cell_off)
+    with open(os.path.join(gendir, "params.json"), "w") as f:
+        import json
+        json.dump({"seed": seed, "SHA1_PAD_LEN": pad_len, "PATCH_BLOCK_LEN": block_len, "IMG_W": img_w, "IMG_H": img_h, "CELL_OFF": cell_off}, f)
     w = pi_hex_words(18 + 1024)
     assert w[0] == 0x243F6A88 and w[18] == 0xD1310BA6, "pi generator self-test failed"
     with open(os.path.join(gendir, "pi.rs"), "w") as f:
